@@ -4,12 +4,14 @@ use serde_json::Value;
 pub mod baton_selftest;
 pub mod c01;
 pub mod c02;
+pub mod c03;
 pub mod c04;
 pub mod c05;
 pub mod c06;
 pub mod c07;
 pub mod c08;
 pub mod c09;
+pub mod c10;
 pub mod c11;
 pub mod c13;
 pub mod c14;
@@ -41,6 +43,8 @@ pub mod c39;
 pub mod c40;
 pub mod metaconc;
 pub mod sched;
+
+
 
 
 
@@ -92,6 +96,8 @@ pub fn run(id: &str, run: &mut Run) {
         "C14" => c14::run(run),
         "C15" => c15::run(run),
         "C16" => c16::run(run),
+        "C03" => c03::run(run),
+        "C10" => c10::run(run),
         _ => machinery_failure(&format!("no check for property {}", id)),
     }
 }
@@ -138,6 +144,8 @@ pub fn replay(id: &str, case: &Value, run: &mut Run) {
         "C14" => c14::replay(case, run),
         "C15" => c15::replay(case, run),
         "C16" => c16::replay(case, run),
+        "C03" => c03::replay(case, run),
+        "C10" => c10::replay(case, run),
         _ => machinery_failure(&format!("no replay for property {}", id)),
     }
 }
@@ -166,6 +174,8 @@ pub fn child(id: &str, args: &[String]) {
         "C14" => c14::child(args),
         "C15" => c15::child(args),
         "C16" => c16::child(args),
+        "C03" => c03::child(args),
+        "C10" => c10::child(args),
         _ => machinery_failure(&format!("no child mode for property {}", id)),
     }
 }
